@@ -7,8 +7,14 @@
 #include "../../sim/simrt.hpp"
 #include "sut.hpp"
 
+extern "C" uint32_t simh_lock_age(); // harness: 0, or a counter value just below 2^32 ("aged" ticket lock)
 template <class L>
 struct Counted : L {
+	Counted() {
+		// A ticket lock that has been acquired ~2^32 times has both counters near the wrap; instead of replaying that
+		// history the run may start from that state. Relies on the lock being exactly two 32-bit counters (checked by size).
+		if constexpr (sizeof(L) == 8) { uint32_t a = simh_lock_age(); if (a) { uint32_t both[2] = {a, a}; __builtin_memcpy(static_cast<L *>(this), both, 8); } }
+	}
 	void lock() { L::lock(); sim::note_lock(+1); }
 	void unlock() { sim::note_lock(-1); L::unlock(); }
 };
